@@ -228,6 +228,14 @@ Theorem C03_reads_through : forall allowed cs, exists w, read_so_far None allowe
 Proof. exact no_expectation_reads_through. Qed.
 Print Assumptions C03_reads_through.
 
+(* file-like sources: for every file content and every sequence of read sizes, the reads (none raising) are a
+   read-through of the chunk list delivered, whose concatenation is the part of the file that was read *)
+Theorem C03_file_reads : forall expected allowed data sizes w' s' tr delivered,
+  cw_run_reads (cw_new expected allowed) {| f_data := data; f_pos := 0; f_closed := false |} sizes = (w', s', tr, delivered, None) ->
+  read_so_far expected allowed delivered w' /\ concat delivered = bsub 0 (f_pos s') data.
+Proof. exact file_reads_through. Qed.
+Print Assumptions C03_file_reads.
+
 (* the two generators agree on ALL_FORMATS *)
 Theorem C03_factory_is_all_formats : map fst factory = map fst C06_Wrapper.all_formats.
 Proof. exact factory_names. Qed.
